@@ -62,6 +62,14 @@ def evictLoop (q : MsgQueue) (nextPos entrySize : Nat) : Nat → MsgQueue
       else evictLoop { q1 with first := some (f + HDR + q.esize f) } nextPos entrySize fuel
     else q
 
+/-- the tail of `MessageQueue_enqueueASDU`: write the entry at the chosen position -/
+def writeEntry (q1 : MsgQueue) (np : Nat) (data : List Nat) : MsgQueue :=
+  let q := { q1 with last := some np }
+  let q := if np > q.lib.getD 0 then { q with lib := some np } else q
+  let q := { q with count := q.count + 1 }
+  let q := q.put np { id := q.nextId, st := 1, data := data }
+  { q with nextId := q.nextId + 1 }
+
 /-- `MessageQueue_enqueueASDU` -/
 def MsgQueue.enqueue (q : MsgQueue) (data : List Nat) : MsgQueue :=
   let asduSize := data.length
@@ -83,11 +91,7 @@ def MsgQueue.enqueue (q : MsgQueue) (data : List Nat) : MsgQueue :=
           else (q, np)
         let q := if np ≤ q.first.getD 0 then evictLoop q np entrySize (q.count + 1) else q
         (q, np)
-    let q := { q with last := some nextPos }
-    let q := if nextPos > q.lib.getD 0 then { q with lib := some nextPos } else q
-    let q := { q with count := q.count + 1 }
-    let q := q.put nextPos { id := q.nextId, st := 1, data := data }
-    { q with nextId := q.nextId + 1 }
+    writeEntry q nextPos data
 
 /-- walk from `first` looking for the first entry satisfying `p`; stops after `last` -/
 def findFrom (q : MsgQueue) (p : QEntry → Bool) : Nat → Nat → Option Nat
@@ -154,6 +158,16 @@ def MsgQueue.markConfirmed (q : MsgQueue) (o id : Nat) : MsgQueue :=
           let q1 := q.setState o 0
           if some o == q.first then q1.removeFirst else q1
         else q
+      | none => q
+    else q
+  else q
+
+/-- `MessageQueue_setEntryWaitingForTransmission`: one sent-but-unconfirmed entry back to waiting -/
+def MsgQueue.setEntryWaiting (q : MsgQueue) (o id : Nat) : MsgQueue :=
+  if q.count > 0 then
+    if id + 1 ≤ q.nextId && q.nextId - 1 - id < q.count then
+      match q.get o with
+      | some e => if e.id == id && e.st == 2 then q.setState o 1 else q
       | none => q
     else q
   else q
